@@ -234,6 +234,12 @@ def shapes(tier):
         out.append({'row': 2, 'flushes': [(2, 1, 0), (2, 0, 1), (1, 1, 1)], 'mode': 'abandon', 'stop_after': 2, 'serve': True,
                     'then_twice': True})
         out.append({'row': 2, 'flushes': [(2, 1, 0), (2, 0, 1), (1, 1, 1)], 'mode': 'twice', 'serve': True})
+    # more compacted rows than flushes (in scope for complete / resumed compactions: the flush count goes UP)
+    out.append({'row': 2, 'flushes': [(7, 1, 0), (0, 1, 1)], 'mode': 'complete', 'sym_limit': tier != 'quick'})
+    if tier == 'thorough':
+        out.append({'row': 2, 'flushes': [(7, 1, 0), (0, 1, 1)], 'mode': 'resume', 'stop_after': 1})
+        out.append({'row': 2, 'flushes': [(7, 0, 2)], 'mode': 'twice'})
+        out.append({'row': 3, 'flushes': [(7, 7, 0), (4, 0, 1)], 'mode': 'complete', 'serve': True})
     for b in bases:
         out.append(dict(b, mode='complete'))
         for stop in (1, 2):
@@ -253,9 +259,11 @@ KERNELS = [
            bounds='3 script hashes in 2 cursor prefixes (concrete keys), <= 4 flushes, <= 4 entries per row, '
                   'max_hist_row_entries 2 or 3; symbolic: every entry (40-bit, increasing per script hash), the batch '
                   'limit (any integer >= 1), the backup threshold (40-bit); stop after 1 or 2 batches then resume or '
-                  'abandon (normal start), or complete',
-           outside='databases violating the property\'s restriction (more compacted rows than flushes), more rows, '
-                   'interruption inside a batch (one atomic batch per pass)',
+                  'abandon (normal start), or complete; one mode: killed between batches, start with no block pending, block, second '
+                  'compaction, blocks',
+           outside='for the abandoned-then-keep-indexing modes: databases violating the property\'s restriction (more '
+                   'compacted rows than flushes; complete / resumed / repeated compactions are run on such databases '
+                   'too, up to 7 entries in a flush); more rows, interruption inside a batch (one atomic batch per pass)',
            assumptions=['LevelDB modelled by MemStore (atomic batches)'],
            witnesses=1, split_depth=3),
     Kernel('TOOL', tool, lambda tier: [{'row': 2, 'flushes': [(1, 1, 0), (2, 0, 1), (1, 1, 1)]}],
